@@ -108,6 +108,23 @@ Definition pc_ok_b (order : nat) (t : itree) (p : pc K V) : bool :=
   | _ => true
   end.
 
+(* minimum occupancy everywhere except at the one node a Delete in flight has made too small and not yet
+   rebalanced (the child of its innermost activation while it waits for the right sibling) *)
+Fixpoint iocc_b (order : nat) (exempt : option id) (isroot : bool) (t : itree) : bool :=
+  ((match exempt with Some x => nid t =? x | None => false end) ||
+   (if isroot then match t with ILeaf _ _ _ => true | INode _ cs => root_min order <=? length cs end
+    else Nat.div2 order <=? icount t)) &&
+  match t with
+  | ILeaf _ _ _ => true
+  | INode _ cs => (fix go (cs : list (K * itree)) : bool := match cs with [] => true | (_, c) :: r => iocc_b order exempt false c && go r end) cs
+  end.
+
+Definition exempt_of (p : pc K V) : option id :=
+  match p with DelWantRight _ (f :: _) => fc f | _ => None end.
+Definition exempt_node (s : st) : option id :=
+  fold_right (fun e acc => match exempt_of (tpc (snd e)) with Some x => Some x | None => acc end) None (ths s).
+Definition occ_ok_b (order : nat) (s : st) : bool := iocc_b order (exempt_node s) true (tr s).
+
 Definition all_pc_ok_b (order : nat) (s : st) : bool :=
   forallb (fun e => pc_ok_b order (tr s) (tpc (snd e))) (ths s).
 
